@@ -51,6 +51,7 @@ func main() {
 	g := hx.NewGen(*hx.Seed)
 	if hx.Want("serve") {
 		genServe(g, out)
+		genServeReal(g, out)
 	}
 	registerMore(g, out)
 }
@@ -73,6 +74,7 @@ type scripted struct {
 	pemCert []byte
 	cert    *x509.Certificate
 	log     []string // what the agent received, for C13
+	key     ssh.PublicKey // the identity this agent lists (default: the fixed Ed25519 key)
 	quiet   bool     // follow-up traffic: not logged
 	kept    []kept   // arguments retained by the agent, re-read after later requests
 }
@@ -110,7 +112,11 @@ func (s *scripted) rec(f string, a ...any) {
 }
 
 func (s *scripted) List() ([]*sshagent.Key, error) {
-	return []*sshagent.Key{{Format: "ssh-ed25519", Blob: fixedKey().Marshal(), Comment: "fixed"}}, nil
+	k := s.key
+	if k == nil {
+		k = fixedKey()
+	}
+	return []*sshagent.Key{{Format: k.Type(), Blob: k.Marshal(), Comment: "fixed"}}, nil
 }
 func (s *scripted) Sign(key ssh.PublicKey, data []byte) (*ssh.Signature, error) {
 	return s.SignWithFlags(key, data, 0)
